@@ -66,7 +66,9 @@ def write_machine_config():
         for i, c in enumerate(BLOCKS):
             n = "%s%d" % (kind, i)
             lines = ["#config_version=6", "%s:" % sec]
-            lines += ["  %s:" % n, "    events: %s_s0, %s_s1, %s_s2" % (n, n, n), "    enable_events: %s_enable" % n,
+            # a sequence uses the same event for two consecutive steps: one hit must advance exactly one step
+            evs = "%s_s0, %s_s1, %s_s2" % (n, n, n) if kind == "a" else "%s_s0, %s_s1, %s_s1, %s_s2" % (n, n, n, n)
+            lines += ["  %s:" % n, "    events: %s" % evs, "    enable_events: %s_enable" % n,
                       "    disable_events: %s_disable" % n, "    reset_events: %s_reset" % n,
                       "    restart_events: %s_restart" % n,
                       "    reset_on_complete: %s" % str(c["roc"]).lower(),
@@ -199,13 +201,14 @@ class BlockDriver(MachineDriver):
                 if all(self.ref_value):
                     self.r_complete(now, exp)
             else:
-                if step != self.ref_value:
+                # steps of the sequence: s0, s1, s1, s2 - the event s1 stands for steps 1 and 2
+                if self.ref_value not in {0: (0,), 1: (1, 2), 2: (3,)}[step]:
                     self.stat("out_of_order_steps")
                     return
                 self.ref_value += 1
                 self.stat("accepted_hits")
                 exp.append("logicblock_X_hit")
-                if self.ref_value >= 3:
+                if self.ref_value >= 4:
                     self.r_complete(now, exp)
 
     def do_op(self, op):
